@@ -7,9 +7,66 @@ namespace Wrgl.Drv
 def jPack (r : Nat × List (Nat × Bytes)) : Json :=
   Json.mkObj [("objects", Json.arr (r.2.map (fun o => Json.arr #[jNat o.1, jBytes o.2])).toArray), ("version", jNat r.1)]
 
-/-- whole-buffer decoding by the Lean models; `none` when the kind is not modelled -/
+/-- `FloatListDecoder.Read` on a buffer: a 32-bit count, then that many 8-byte values (kept as bytes) -/
+def decodeF64s : Nat → Bytes → Res (List Bytes × Bytes)
+  | 0, b => .ok ([], b)
+  | n+1, b =>
+    match takeN 8 b with
+    | none => .err "eof-in-value"
+    | some (v, rest) =>
+      match decodeF64s n rest with
+      | .ok (vs, r) => .ok (v :: vs, r)
+      | .err e => .err e
+      | .panic p => .panic p
+
+def floatListRead (b : Bytes) : Res (List Bytes × Bytes) :=
+  match takeN 4 b with
+  | none => .err "eof"
+  | some (cb, rest) => decodeF64s (beNat cb) rest
+
+/-- a stream of rows read with one decoder until end of stream: each row with the bytes it occupied.
+    Every row takes at least its 4-byte count, so `fuel = length + 1` is never exhausted. -/
+def rowStreamRead : Nat → Bytes → Res (List (Row × Bytes))
+  | 0, _ => .err "fuel"
+  | fuel+1, b =>
+    if b.isEmpty then .ok []
+    else match strListRead b with
+      | .ok (r, rest) =>
+        match rowStreamRead fuel rest with
+        | .ok rs => .ok ((r, b.take (b.length - rest.length)) :: rs)
+        | .err e => .err e
+        | .panic p => .panic p
+      | .err e => .err e
+      | .panic p => .panic p
+
+/-- whole-buffer decoding by the Lean models; `none` when the kind is not modelled. The constructor
+    option of a decoder (`-reuse`) is not a parameter of the model: the decoded value may not depend on it. -/
 def modelDecode (kind : String) (b : Bytes) : Option (Res Json) :=
+  let kind := match kind with
+    | "strlist-reuse" => "strlist"
+    | "strlist-bytes-reuse" => "strlist-bytes"
+    | "uintlist-reuse" => "uintlist"
+    | "floatlist-reuse" => "floatlist"
+    | "rowstream-reuse" => "rowstream"
+    | "rowstream-bytes-reuse" => "rowstream-bytes"
+    | k => k
   match kind with
+  | "strlist-bytes" => some (match strListRead b with
+      | .ok (_, rest) => .ok (jBytes (b.take (b.length - rest.length)))
+      | .err e => .err e
+      | .panic p => .panic p)
+  | "floatlist" => some (match floatListRead b with
+      | .ok (l, _) => .ok (Json.arr (l.map jBytes).toArray)
+      | .err e => .err e
+      | .panic p => .panic p)
+  | "rowstream" => some (match rowStreamRead (b.length + 1) b with
+      | .ok rs => .ok (jRows (rs.map (·.1)))
+      | .err e => .err e
+      | .panic p => .panic p)
+  | "rowstream-bytes" => some (match rowStreamRead (b.length + 1) b with
+      | .ok rs => .ok (Json.arr (rs.map (fun x => jBytes x.2)).toArray)
+      | .err e => .err e
+      | .panic p => .panic p)
   | "packfile" => some (match packfileFlat b with
       | .ok r => .ok (jPack r)
       | .err e => .err e
